@@ -280,10 +280,30 @@ theorem View_self (s : State) : View s s.pc s.stack s.eval s.unnamed (s.regs .re
   funext r
   by_cases h : r = .result <;> simp [View, h]
 
+/-- what the model needs of the registers: the unit-mode register holds a unit mode (the code of
+`cycle` loops tests it), and lights are discovered backwards (`disc_forward` is false, as the
+machine initialises it; no instruction of generated code changes it) -/
+def RegsOk (regs : Reg → Val) : Prop :=
+  (∃ m, regs .unitMode = .mode m) ∧ (regs .discForward).truthy = false
+
+/-- the registers a script may set with a register statement: not the unit mode (that is the
+`units` statement) and not the discovery direction (which the language cannot name) -/
+abbrev SettableReg (r : Reg) : Prop := r ≠ .unitMode ∧ r ≠ .discForward
+
+theorem RegsOk.setReg {regs : Reg → Val} (h : RegsOk regs) {r : Reg} (hr : SettableReg r) (v : Val) :
+    RegsOk (fun r' => if r' = r then v else regs r') := by
+  unfold RegsOk
+  simp only [if_neg (Ne.symm hr.1), if_neg (Ne.symm hr.2)]
+  exact h
+
+theorem RegsOk.setResult {regs : Reg → Val} (h : RegsOk regs) (v : Val) :
+    RegsOk (fun r' => if r' = .result then v else regs r') := h.setReg (by decide) v
+
 /-- a command handler: acts on the device part only -/
 structure Handler (h : State → State) : Prop where
   view : ∀ s pc stk ev un rv, h (View s pc stk ev un rv) = View (h s) pc stk ev un rv
   nohalt : ∀ s, s.status ≠ .halted → (h s).status ≠ .halted
+  umode : ∀ s, RegsOk s.regs → RegsOk (h s).regs
 
 theorem Handler.frame {h : State → State} (hh : Handler h) (s : State) :
     (h s).pc = s.pc ∧ (h s).stack = s.stack ∧ (h s).eval = s.eval ∧ (h s).unnamed = s.unnamed ∧
@@ -292,43 +312,255 @@ theorem Handler.frame {h : State → State} (hh : Handler h) (s : State) :
   rw [View_self] at this
   refine ⟨?_, ?_, ?_, ?_, ?_⟩ <;> (rw [this]; simp [View])
 
-theorem handler_doColor : Handler State.doColor := ⟨View_doColor, nh_doColor⟩
-theorem handler_doPower : Handler State.doPower := ⟨View_doPower, nh_doPower⟩
-theorem handler_doGetColor : Handler State.doGetColor := ⟨View_doGetColor, nh_doGetColor⟩
+/-! ### the handlers leave a unit mode in the unit-mode register -/
+
+theorem sendColor_regs (n raw dur) : (s.sendColor n raw dur).regs = s.regs := by
+  simp only [State.sendColor]; split <;> rfl
+theorem sendPower_regs (n p dur) : (s.sendPower n p dur).regs = s.regs := by
+  simp only [State.sendPower]; split <;> rfl
+
+theorem foldColor_regs (names : List String) (raw dur) :
+    (names.foldl (fun st n => if st.status == .running then st.sendColor n raw dur else st) s).regs
+      = s.regs := by
+  induction names generalizing s with
+  | nil => rfl
+  | cons n rest ih =>
+    simp only [List.foldl_cons]
+    split
+    · rw [ih, sendColor_regs]
+    · rw [ih]
+
+theorem foldPower_regs (names : List String) (p dur) :
+    (names.foldl (fun st n => if st.status == .running then st.sendPower n p dur else st) s).regs
+      = s.regs := by
+  induction names generalizing s with
+  | nil => rfl
+  | cons n rest ih =>
+    simp only [List.foldl_cons]
+    split
+    · rw [ih, sendPower_regs]
+    · rw [ih]
+
+theorem colorMultiple_regs (names) : (s.colorMultiple names).regs = s.regs := by
+  simp only [State.colorMultiple]
+  split
+  · exact foldColor_regs ..
+  · rfl
+
+theorem powerMultiple_regs (names) : (s.powerMultiple names).regs = s.regs := by
+  simp only [State.powerMultiple]
+  split
+  · exact foldPower_regs ..
+  · rfl
+
+theorem doColor_regs : s.doColor.regs = s.regs := by
+  unfold State.doColor
+  repeat' split
+  all_goals try exact colorMultiple_regs _ _
+  all_goals try simp only [State.emit, State.fault]
+  all_goals repeat' split
+  all_goals rfl
+
+theorem doPower_regs : s.doPower.regs = s.regs := by
+  unfold State.doPower
+  repeat' split
+  all_goals try exact powerMultiple_regs _ _
+  all_goals try simp only [State.emit, State.fault]
+  all_goals repeat' split
+  all_goals rfl
+
+theorem storeColor_umode (c) : (s.storeColor c).regs .unitMode = s.regs .unitMode ∧
+    (s.storeColor c).regs .discForward = s.regs .discForward := by
+  unfold State.storeColor
+  repeat' split
+  all_goals simp [State.setReg]
+
+theorem doGetColor_umode : s.doGetColor.regs .unitMode = s.regs .unitMode ∧
+    s.doGetColor.regs .discForward = s.regs .discForward := by
+  unfold State.doGetColor
+  repeat' split
+  all_goals try simp only []
+  all_goals repeat' split
+  all_goals first | exact ⟨rfl, rfl⟩ | (rw [(storeColor_umode _ _).1, (storeColor_umode _ _).2]; exact ⟨rfl, rfl⟩)
+
+theorem switchMode_umode (m) (h : RegsOk s.regs) : RegsOk (s.switchMode m).regs := by
+  unfold State.switchMode
+  simp only []
+  repeat' split
+  all_goals first
+    | exact h
+    | exact ⟨⟨m, by simp [State.setReg, State.fault, (storeColor_umode _ _).1]⟩,
+        by simpa [State.setReg, State.fault, (storeColor_umode _ _).2] using h.2⟩
+
+theorem wait_regs (img : Image) : (execInstr img s .wait).regs = s.regs := by
+  simp only [execInstr]
+  repeat' split
+  all_goals rfl
+
+theorem matrixI_regs (img : Image) : (execInstr img s .matrix).regs = s.regs := by
+  simp only [execInstr]
+  repeat' split
+  all_goals rfl
+
+theorem handler_doColor : Handler State.doColor :=
+  ⟨View_doColor, nh_doColor, fun s h => by rw [doColor_regs]; exact h⟩
+theorem handler_doPower : Handler State.doPower :=
+  ⟨View_doPower, nh_doPower, fun s h => by rw [doPower_regs]; exact h⟩
+theorem handler_doGetColor : Handler State.doGetColor :=
+  ⟨View_doGetColor, nh_doGetColor, fun s h => by
+    unfold RegsOk; rw [(doGetColor_umode s).1, (doGetColor_umode s).2]; exact h⟩
 theorem handler_switchMode (m : UnitMode) : Handler (fun s => s.switchMode m) :=
-  ⟨fun s pc stk ev un rv => View_switchMode s pc stk ev un rv m, fun s => nh_switchMode s m⟩
+  ⟨fun s pc stk ev un rv => View_switchMode s pc stk ev un rv m, fun s => nh_switchMode s m,
+    fun s h => switchMode_umode s m h⟩
 theorem handler_wait (img : Image) : Handler (fun s => execInstr img s .wait) :=
-  ⟨fun s pc stk ev un rv => View_wait s pc stk ev un rv img img, fun s => nh_wait s img⟩
+  ⟨fun s pc stk ev un rv => View_wait s pc stk ev un rv img img, fun s => nh_wait s img,
+    fun s h => by rw [wait_regs]; exact h⟩
 theorem handler_matrix (img : Image) : Handler (fun s => execInstr img s .matrix) :=
-  ⟨fun s pc stk ev un rv => View_matrixI s pc stk ev un rv img img, fun s => nh_matrixI s img⟩
+  ⟨fun s pc stk ev un rv => View_matrixI s pc stk ev un rv img img, fun s => nh_matrixI s img,
+    fun s h => by rw [matrixI_regs]; exact h⟩
 
 /-! ### the simulation relation -/
 
 /-- where the code runs: at top level (`ret = none`), or inside a routine call that will return
-to address `ret` with the frames `rest` of the caller left on the stack (`some (ret, rest)`);
-and the routines defined in the script -/
+to address `ret` with the frames `rest` of the caller left on the stack and the caller's
+evaluation stack `ev` as it was at the call (`some (ret, rest, ev)`); and the routines defined in
+the script -/
 structure Ctx where
-  ret : Option (Nat × List Frame) := none
+  ret : Option (Nat × List Frame × List Val) := none
   routines : List (String × Sem.Routine) := []
+
+/-- the evaluation stack on entry of the current activation (what a `return` restores) -/
+def Ctx.base (K : Ctx) : List Val :=
+  match K.ret with
+  | some (_, _, e) => e
+  | none => []
 
 /-- the frames below the loop frames of the current activation -/
 def baseOf (K : Ctx) (loc : Option Dict) : List Frame :=
   match K.ret, loc with
-  | some (ret, rest), some d => .call d ret :: rest
+  | some (ret, rest, _), some d => .call d ret :: rest
   | _, _ => []
 
+/-- the control stacks of the current activation as the generated code sees them between two
+statements: its loop frames (innermost first) and the evaluation stack -/
+structure Stk where
+  frames : List Frame := []
+  ev : List Val := []
+
+/-- one more loop frame, same evaluation stack -/
+def Stk.cons (f : Frame) (k : Stk) : Stk := ⟨f :: k.frames, k.ev⟩
+
+@[inherit_doc] infixr:67 " ::: " => Stk.cons
+
+@[simp] theorem Stk.cons_frames (f : Frame) (k : Stk) : (f ::: k).frames = f :: k.frames := rfl
+@[simp] theorem Stk.cons_ev (f : Frame) (k : Stk) : (f ::: k).ev = k.ev := rfl
+
+/-- the evaluation stack is what the loop frames recorded: below the values pushed since the
+innermost `LOOP` (the names a loop over lights has still to visit) lies the stack as it was at that
+`LOOP`, whose height the frame holds; at the bottom lies `base`, the stack on entry of the
+activation -/
+inductive EvOk (base : List Val) : List Frame → List Val → Prop
+  | nil : EvOk base [] base
+  | loop {frames : List Frame} {ev : List Val} (vars : List (LoopVar × Val)) (extra : List Val) :
+      EvOk base frames ev → EvOk base (.loop vars ev.length :: frames) (extra ++ ev)
+
+theorem EvOk.loopsOnly {base : List Val} {frames : List Frame} {ev : List Val} (h : EvOk base frames ev) :
+    LoopsOnly frames := by
+  induction h with
+  | nil => exact LoopsOnly.nil
+  | loop vars extra _ ih =>
+    intro f hf
+    simp only [List.mem_cons] at hf
+    rcases hf with rfl | hf
+    · rfl
+    · exact ih f hf
+
+theorem EvOk.inv {base : List Val} {frames : List Frame} {ev : List Val} {vars : List (LoopVar × Val)}
+    {ht : Nat} (h : EvOk base (.loop vars ht :: frames) ev) :
+    ∃ extra ev0, ev = extra ++ ev0 ∧ ht = ev0.length ∧ EvOk base frames ev0 := by
+  cases h with
+  | loop vars extra h0 => exact ⟨extra, _, rfl, rfl, h0⟩
+
+/-- the hidden variables of the innermost loop may change -/
+theorem EvOk.retop {base : List Val} {frames : List Frame} {ev : List Val} {vars : List (LoopVar × Val)}
+    {ht : Nat} (h : EvOk base (.loop vars ht :: frames) ev) (vars' : List (LoopVar × Val)) :
+    EvOk base (.loop vars' ht :: frames) ev := by
+  obtain ⟨extra, ev0, rfl, rfl, h0⟩ := h.inv
+  exact .loop vars' extra h0
+
+/-- values may be pushed inside the innermost loop -/
+theorem EvOk.push {base : List Val} {frames : List Frame} {ev : List Val} {vars : List (LoopVar × Val)}
+    {ht : Nat} (h : EvOk base (.loop vars ht :: frames) ev) (x : Val) :
+    EvOk base (.loop vars ht :: frames) (x :: ev) := by
+  obtain ⟨extra, ev0, rfl, rfl, h0⟩ := h.inv
+  exact .loop vars (x :: extra) h0
+
+theorem EvOk.height_le {base : List Val} {frames : List Frame} {ev : List Val} (h : EvOk base frames ev) :
+    ∀ vars ht, Frame.loop vars ht ∈ frames → ht ≤ ev.length := by
+  induction h with
+  | nil => intro vars ht hm; simp at hm
+  | @loop frames ev vars extra _ ih =>
+    intro vars' ht hm
+    simp only [List.mem_cons, Frame.loop.injEq] at hm
+    rcases hm with ⟨_, rfl⟩ | hm
+    · simp
+    · have := ih vars' ht hm
+      simp only [List.length_append]; omega
+
+theorem trimEval_append (extra ev : List Val) (h : Nat) (hh : h ≤ ev.length) :
+    trimEval (extra ++ ev) h = trimEval ev h := by
+  simp only [trimEval, List.length_append]
+  have : extra.length + ev.length - h = extra.length + (ev.length - h) := by omega
+  rw [this, List.drop_append]
+  simp
+
+theorem trimEval_self (ev : List Val) : trimEval ev ev.length = ev := by simp [trimEval]
+
+/-- what a `return` leaves on the evaluation stack: the stack on entry of the activation -/
+theorem EvOk.unwind {base : List Val} {frames : List Frame} {ev : List Val} (h : EvOk base frames ev) :
+    (match frames.getLast? with
+      | some (.loop _ hh) => trimEval ev hh
+      | _ => ev) = base := by
+  induction h with
+  | nil => rfl
+  | @loop frames ev vars extra h0 ih =>
+    cases frames with
+    | nil =>
+      cases h0
+      simp only [List.getLast?_singleton]
+      rw [trimEval_append _ _ _ (Nat.le_refl _), trimEval_self]
+    | cons f rest =>
+      rw [List.getLast?_cons_cons]
+      have hl := h0.loopsOnly
+      cases hg : (f :: rest).getLast? with
+      | none => simp at hg
+      | some g =>
+        have hmem : g ∈ f :: rest := List.mem_of_getLast? hg
+        rw [hg] at ih
+        cases g with
+        | loop v hh =>
+          simp only at ih ⊢
+          rw [trimEval_append _ _ _ (h0.height_le v hh hmem)]
+          exact ih
+        | pending _ => exact absurd (hl _ hmem) (by simp [Frame.isLoop])
+        | call _ _ => exact absurd (hl _ hmem) (by simp [Frame.isLoop])
+
 /-- `σ` (source level) and `s` (machine) agree, between two statements of code that runs in
-context `K` inside the loops whose frames are `stk`, with `un` the values waiting for a `printf`.
+context `K` inside the loops whose frames are `stk.frames`, with evaluation stack `stk.ev` (the names
+loops over lights have still to visit, operands of an expression under evaluation in a caller) and
+with `un` the values waiting for a `printf`.
 Everything the source semantics talks about is related by equality; the machine's `result`
 register is scratch (conditions, printed values, arguments pass through it). -/
-structure SimU (K : Ctx) (stk : List Frame) (un : List Val) (σ : S) (s : State) : Prop where
+structure SimU (K : Ctx) (stk : Stk) (un : List Val) (σ : S) (s : State) : Prop where
   running : s.status = .running
-  stack : s.stack = stk ++ baseOf K σ.locals
-  loops : LoopsOnly stk
-  eval : s.eval = []
+  stack : s.stack = stk.frames ++ baseOf K σ.locals
+  loops : LoopsOnly stk.frames
+  eval : s.eval = stk.ev
+  evok : EvOk K.base stk.frames stk.ev
   unnamed : s.unnamed = un
   locals : K.ret.isSome = σ.locals.isSome ∧ σ.routines = K.routines
   status : σ.vm.status = .running
+  umode : RegsOk σ.vm.regs
   globals : σ.vm.globals = s.globals
   constants : σ.vm.constants = s.constants
   lights : σ.vm.lights = s.lights
@@ -338,9 +570,9 @@ structure SimU (K : Ctx) (stk : List Frame) (un : List Val) (σ : S) (s : State)
   draws : σ.vm.draws = s.draws
   regs : ∀ r, r ≠ .result → σ.vm.regs r = s.regs r
 
-abbrev Sim (K : Ctx) (stk : List Frame) (σ : S) (s : State) : Prop := SimU K stk [] σ s
+abbrev Sim (K : Ctx) (stk : Stk) (σ : S) (s : State) : Prop := SimU K stk [] σ s
 
-variable {K : Ctx} {stk : List Frame} {un : List Val} {σ : S} {s : State}
+variable {K : Ctx} {stk : Stk} {un : List Val} {σ : S} {s : State}
 
 theorem SimU.view (h : SimU K stk un σ s) :
     σ.vm = View s σ.vm.pc σ.vm.stack σ.vm.eval σ.vm.unnamed (σ.vm.regs .result) := by
@@ -359,15 +591,19 @@ theorem SimU.view (h : SimU K stk un σ s) :
   · exact h.draws
 
 theorem SimU.of_view {σ' : S} {t : State} {pc stk' ev un' rv}
-    (hr : t.status = .running) (hs : t.stack = stk ++ baseOf K σ'.locals) (hl : LoopsOnly stk)
-    (he : t.eval = []) (hu : t.unnamed = un) (hloc : K.ret.isSome = σ'.locals.isSome ∧ σ'.routines = K.routines)
+    (hr : t.status = .running) (hs : t.stack = stk.frames ++ baseOf K σ'.locals) (hl : LoopsOnly stk.frames)
+    (he : t.eval = stk.ev) (hok : EvOk K.base stk.frames stk.ev)
+    (hu : t.unnamed = un) (hloc : K.ret.isSome = σ'.locals.isSome ∧ σ'.routines = K.routines)
+    (hm : RegsOk t.regs)
     (hv : σ'.vm = View t pc stk' ev un' rv) :
     SimU K stk un σ' t := by
-  refine ⟨hr, hs, hl, he, hu, hloc, ?_, ?_, ?_, ?_, ?_, ?_, ?_, ?_, ?_⟩
+  refine ⟨hr, hs, hl, he, hok, hu, hloc, ?_, ?_, ?_, ?_, ?_, ?_, ?_, ?_, ?_, ?_⟩
   all_goals rw [hv]
   all_goals first | exact hr | rfl | skip
-  intro r hne
-  simp [View, hne]
+  · obtain ⟨⟨m, hm⟩, hd⟩ := hm
+    exact ⟨⟨m, by simp [View, hm]⟩, by simpa [View] using hd⟩
+  · intro r hne
+    simp [View, hne]
 
 /-- the current activation's dictionary is the source level's `locals` -/
 theorem SimU.activation (h : SimU K stk un σ s) : σ.locals = activation s.stack := by
@@ -377,14 +613,14 @@ theorem SimU.activation (h : SimU K stk un σ s) : σ.locals = activation s.stac
   | none =>
     rw [hK] at hl
     cases hloc : σ.locals with
-    | none => simp only [baseOf, hK, List.append_nil, activation_only_loops stk h.loops]
+    | none => simp only [baseOf, hK, List.append_nil, activation_only_loops stk.frames h.loops]
     | some d => rw [hloc] at hl; simp at hl
   | some p =>
     obtain ⟨ret, rest⟩ := p
     rw [hK] at hl
     cases hloc : σ.locals with
     | none => rw [hloc] at hl; simp at hl
-    | some d => simp only [baseOf, hK, activation_loops stk d ret rest h.loops]
+    | some d => simp only [baseOf, hK, activation_loops stk.frames d ret rest.1 h.loops]
 
 theorem SimU.scope (h : SimU K stk un σ s) : ScopeAgree σ s :=
   ⟨h.globals, h.constants, h.activation⟩
@@ -394,7 +630,7 @@ theorem SimU.lookup (h : SimU K stk un σ s) (n : String) : σ.lookup n = s.getV
 
 /-- moving the program counter does not disturb the relation -/
 theorem SimU.setPc (h : SimU K stk un σ s) (q : Int) : SimU K stk un σ { s with pc := q } :=
-  ⟨h.running, h.stack, h.loops, h.eval, h.unnamed, h.locals, h.status, h.globals, h.constants,
+  ⟨h.running, h.stack, h.loops, h.eval, h.evok, h.unnamed, h.locals, h.status, h.umode, h.globals, h.constants,
     h.lights, h.trace, h.defaultColor, h.matrix, h.draws, h.regs⟩
 
 /-- a handler run on both sides keeps the relation -/
@@ -429,11 +665,17 @@ theorem SimU.device {hd : State → State} (hh : Handler hd) (h : SimU K stk un 
     · show (hd s).stack = _
       rw [hstack, h.stack]
     · exact h.loops
-    · show (hd s).eval = []
+    · show (hd s).eval = stk.ev
       rw [heval, h.eval]
+    · exact h.evok
     · show (hd s).unnamed = un
       rw [hunn, h.unnamed]
     · exact h.locals
+    · apply hh.umode
+      have hm := h.umode
+      unfold RegsOk at hm ⊢
+      rw [← h.regs _ (by decide), ← h.regs _ (by decide)]
+      exact hm
     · show hd σ.vm = _
       rw [hcomm]; rfl
 
@@ -465,10 +707,10 @@ theorem Exec.of_run {img : Image} {s t : State} {P : State → Prop} (k : Nat) (
     (hp : P t) : Exec img s P := ⟨k, by rw [h]; exact hp⟩
 
 /-- the postcondition of a piece of code: control is at `q` and the relation holds -/
-def At (K : Ctx) (q : Nat) (stk : List Frame) (un : List Val) (σ : S) : State → Prop :=
+def At (K : Ctx) (q : Nat) (stk : Stk) (un : List Val) (σ : S) : State → Prop :=
   fun t => t.pc = (q : Int) ∧ SimU K stk un σ t
 
-variable {img : Image} {K : Ctx} {stk : List Frame} {un : List Val} {σ : S} {s : State} {pc : Nat}
+variable {img : Image} {K : Ctx} {stk : Stk} {un : List Val} {σ : S} {s : State} {pc : Nat}
 
 /-- instructions after which the machine advances `pc` itself -/
 def plain : Instr → Bool
@@ -653,7 +895,7 @@ theorem evalExpr_congr {e : Expr} (he : Pure e) :
       all_goals (repeat' split at h') <;> simp_all
 
 
-variable {img : Image} {K : Ctx} {stk : List Frame} {un : List Val} {σ : S} {s : State} {pc : Nat}
+variable {img : Image} {K : Ctx} {stk : Stk} {un : List Val} {σ : S} {s : State} {pc : Nat}
 
 theorem putVariable_setPc (s : State) (n : String) (v : Val) (q : Int) :
     ({ s with pc := q } : State).putVariable n v = { s.putVariable n v with pc := q } := by
@@ -752,9 +994,10 @@ theorem run_genRv (v : Rv) (hv : RvOK v) (d : Dst) (hd : d ≠ .reg .unitMode)
 
 /-! ### the relation is kept by the elementary updates -/
 
-theorem SimU.setReg (h : SimU K stk un σ s) (r : Reg) (v : Val) :
+theorem SimU.setReg (h : SimU K stk un σ s) (r : Reg) (v : Val) (hr : SettableReg r := by decide) :
     SimU K stk un (σ.setReg r v) (s.setReg r v) :=
-  ⟨h.running, h.stack, h.loops, h.eval, h.unnamed, h.locals, h.status, h.globals, h.constants,
+  ⟨h.running, h.stack, h.loops, h.eval, h.evok, h.unnamed, h.locals, h.status,
+    h.umode.setReg hr v, h.globals, h.constants,
     h.lights, h.trace, h.defaultColor, h.matrix, h.draws, fun r' hr' => by
       simp only [S.setReg, State.setReg]
       split
@@ -762,19 +1005,19 @@ theorem SimU.setReg (h : SimU K stk un σ s) (r : Reg) (v : Val) :
       · exact h.regs r' hr'⟩
 
 theorem SimU.setResult (h : SimU K stk un σ s) (v : Val) : SimU K stk un σ (s.setReg .result v) :=
-  ⟨h.running, h.stack, h.loops, h.eval, h.unnamed, h.locals, h.status, h.globals, h.constants,
+  ⟨h.running, h.stack, h.loops, h.eval, h.evok, h.unnamed, h.locals, h.status, h.umode, h.globals, h.constants,
     h.lights, h.trace, h.defaultColor, h.matrix, h.draws, fun r' hr' => by
       simp only [State.setReg, if_neg hr']
       exact h.regs r' hr'⟩
 
 theorem SimU.semSetResult (h : SimU K stk un σ s) (v : Val) : SimU K stk un (σ.setReg .result v) s :=
-  ⟨h.running, h.stack, h.loops, h.eval, h.unnamed, h.locals, h.status, h.globals, h.constants,
+  ⟨h.running, h.stack, h.loops, h.eval, h.evok, h.unnamed, h.locals, h.status, h.umode, h.globals, h.constants,
     h.lights, h.trace, h.defaultColor, h.matrix, h.draws, fun r' hr' => by
       simp only [S.setReg, State.setReg, if_neg hr']
       exact h.regs r' hr'⟩
 
 theorem SimU.emit (h : SimU K stk un σ s) (e : Event) : SimU K stk un (σ.emit e) (s.emit e) :=
-  ⟨h.running, h.stack, h.loops, h.eval, h.unnamed, h.locals, h.status, h.globals, h.constants,
+  ⟨h.running, h.stack, h.loops, h.eval, h.evok, h.unnamed, h.locals, h.status, h.umode, h.globals, h.constants,
     h.lights, by simp only [S.emit, State.emit, h.trace], h.defaultColor, h.matrix, h.draws, h.regs⟩
 
 theorem SimU.assign (h : SimU K stk un σ s) (n : String) (v : Val) :
@@ -795,8 +1038,8 @@ theorem SimU.assign (h : SimU K stk un σ s) (n : String) (v : Val) :
     have : σ.assign n v = { σ with vm := { σ.vm with globals := σ.vm.globals.put n v } } := by
       simp only [S.assign, hnone]
     rw [this]
-    exact ⟨h.running, by simpa [baseOf, hK] using hstack, h.loops, h.eval, h.unnamed,
-      ⟨by rw [hK]; simpa using hloc, hrt⟩, h.status,
+    exact ⟨h.running, by simpa [baseOf, hK] using hstack, h.loops, h.eval, h.evok, h.unnamed,
+      ⟨by rw [hK]; simpa using hloc, hrt⟩, h.status, h.umode,
       by simp only [h.globals], h.constants, h.lights, h.trace, h.defaultColor, h.matrix, h.draws, h.regs⟩
   | some p =>
     obtain ⟨ret, rest⟩ := p
@@ -807,56 +1050,56 @@ theorem SimU.assign (h : SimU K stk un σ s) (n : String) (v : Val) :
       rw [hl] at hstack
       simp only [baseOf, hK] at hstack
       by_cases hn : d.has n = true
-      · rw [C03_param_private s stk d ret rest n v h.loops hstack hn]
+      · rw [C03_param_private s stk.frames d ret rest.1 n v h.loops hstack hn]
         have : σ.assign n v = { σ with locals := some (d.put n v) } := by
           simp only [S.assign, hl, hn, if_true]
         rw [this]
-        exact ⟨h.running, by simp only [baseOf, hK], h.loops, h.eval, h.unnamed,
-          ⟨by rw [hK]; rfl, hrt⟩, h.status, h.globals, h.constants,
+        exact ⟨h.running, by simp only [baseOf, hK], h.loops, h.eval, h.evok, h.unnamed,
+          ⟨by rw [hK]; rfl, hrt⟩, h.status, h.umode, h.globals, h.constants,
           h.lights, h.trace, h.defaultColor, h.matrix, h.draws, h.regs⟩
       · have hn : d.has n = false := by simpa using hn
         by_cases hg : s.globals.has n = true
-        · rw [C03_global_assign s stk d ret rest n v h.loops hstack hn hg]
+        · rw [C03_global_assign s stk.frames d ret rest.1 n v h.loops hstack hn hg]
           have : σ.assign n v = { σ with vm := { σ.vm with globals := σ.vm.globals.put n v } } := by
             simp only [S.assign, hl, hn, h.globals, hg, if_true, Bool.false_eq_true, if_false]
           rw [this]
-          exact ⟨h.running, by simp only [hl, baseOf, hK]; exact hstack, h.loops, h.eval, h.unnamed,
-            ⟨by simp only [hl, hK]; rfl, hrt⟩, h.status,
+          exact ⟨h.running, by simp only [hl, baseOf, hK]; exact hstack, h.loops, h.eval, h.evok, h.unnamed,
+            ⟨by simp only [hl, hK]; rfl, hrt⟩, h.status, h.umode,
             by simp only [h.globals], h.constants, h.lights, h.trace, h.defaultColor, h.matrix, h.draws,
             h.regs⟩
         · have hg : s.globals.has n = false := by simpa using hg
-          rw [C03_new_name_is_local s stk d ret rest n v h.loops hstack hn hg]
+          rw [C03_new_name_is_local s stk.frames d ret rest.1 n v h.loops hstack hn hg]
           have hput : d.put n v = d ++ [(n, v)] := by
             have : d.any (·.1 == n) = false := hn
             simp [Dict.put, this]
           have : σ.assign n v = { σ with locals := some (d ++ [(n, v)]) } := by
             simp only [S.assign, hl, hn, h.globals, hg, Bool.false_eq_true, if_false, hput]
           rw [this]
-          exact ⟨h.running, by simp only [baseOf, hK], h.loops, h.eval, h.unnamed,
-            ⟨by rw [hK]; rfl, hrt⟩, h.status, h.globals, h.constants,
+          exact ⟨h.running, by simp only [baseOf, hK], h.loops, h.eval, h.evok, h.unnamed,
+            ⟨by rw [hK]; rfl, hrt⟩, h.status, h.umode, h.globals, h.constants,
             h.lights, h.trace, h.defaultColor, h.matrix, h.draws, h.regs⟩
 
 theorem SimU.constant (h : SimU K stk un σ s) (n : String) (v : Val) :
     SimU K stk un { σ with vm := { σ.vm with constants := σ.vm.constants.put n v } }
       { s with constants := s.constants.put n v } :=
-  ⟨h.running, h.stack, h.loops, h.eval, h.unnamed, h.locals, h.status, h.globals,
+  ⟨h.running, h.stack, h.loops, h.eval, h.evok, h.unnamed, h.locals, h.status, h.umode, h.globals,
     by simp only [h.constants], h.lights, h.trace, h.defaultColor, h.matrix, h.draws, h.regs⟩
 
 theorem SimU.setUnnamed (h : SimU K stk un σ s) (un' : List Val) :
     SimU K stk un' σ { s with unnamed := un' } :=
-  ⟨h.running, h.stack, h.loops, h.eval, rfl, h.locals, h.status, h.globals, h.constants,
+  ⟨h.running, h.stack, h.loops, h.eval, h.evok, rfl, h.locals, h.status, h.umode, h.globals, h.constants,
     h.lights, h.trace, h.defaultColor, h.matrix, h.draws, h.regs⟩
 
 /-! ### value positions -/
 
 /-- `r v` (a register setting) -/
-theorem exec_setReg (v : Rv) (hv : RvOK v) (r : Reg) (hr : r ≠ .unitMode)
+theorem exec_setReg (v : Rv) (hv : RvOK v) (r : Reg) (hr : SettableReg r)
     (h : SimU K stk un σ s) (hpc : s.pc = (pc : Int))
     (hc : CodeAt img pc (Gen.genRv v (.to (.reg r))))
     {f : Nat} {x : Val} {σ' : S} (hev : evalRv f v σ = .ok (x, σ')) :
     σ' = σ ∧ Exec img s (At K (pc + (Gen.genRv v (.to (.reg r))).length) stk un (σ.setReg r x)) := by
-  obtain ⟨rfl, hrun⟩ := run_genRv v hv (.reg r) (by simpa using hr) h hpc hc hev h.running
-  exact ⟨rfl, Exec.of_run _ hrun ⟨rfl, (h.setReg r x).setPc _⟩⟩
+  obtain ⟨rfl, hrun⟩ := run_genRv v hv (.reg r) (by simpa using hr.1) h hpc hc hev h.running
+  exact ⟨rfl, Exec.of_run _ hrun ⟨rfl, (h.setReg r x hr).setPc _⟩⟩
 
 /-- a value delivered in `result` (condition, printed value, argument): the source-level state
 does not change -/
@@ -884,14 +1127,14 @@ theorem exec_assign (v : Rv) (hv : RvOK v) (n : String)
 /-! ### single instructions -/
 
 /-- `MOVEQ v r` for a register other than the unit mode -/
-theorem exec_moveqReg (v : Val) (r : Reg) (hr : r ≠ .unitMode)
+theorem exec_moveqReg (v : Val) (r : Reg) (hr : SettableReg r)
     (h : SimU K stk un σ s) (hpc : s.pc = (pc : Int)) (hi : img.code[pc]? = some (.moveq v (.reg r))) :
     Exec img s (At K (pc + 1) stk un (σ.setReg r v)) := by
   apply Exec.step h.running
   apply Exec.done
   rw [step_eq _ (s.setReg r v) h.running hpc hi rfl
-    (by rw [execInstr_moveq v (.reg r) (by simpa using hr)]; rfl) h.running]
-  refine ⟨?_, (h.setReg r v).setPc _⟩
+    (by rw [execInstr_moveq v (.reg r) (by simpa using hr.1)]; rfl) h.running]
+  refine ⟨?_, (h.setReg r v hr).setPc _⟩
   show s.pc + 1 = _
   rw [hpc]; omega
 
@@ -1089,7 +1332,7 @@ theorem exec_timePatterns (rest : List TP.Pat) :
     apply Exec.done
     refine ⟨by simpa using hpc, ?_⟩
     have := h.setReg .time (.pat p0)
-    refine ⟨h.running, h.stack, h.loops, h.eval, h.unnamed, h.locals, h.status, h.globals,
+    refine ⟨h.running, h.stack, h.loops, h.eval, h.evok, h.unnamed, h.locals, h.status, h.umode, h.globals,
       h.constants, h.lights, h.trace, h.defaultColor, h.matrix, h.draws, fun r hr => ?_⟩
     simp only [List.foldl_nil, S.setReg, State.setReg]
     split
@@ -1113,7 +1356,7 @@ theorem exec_timePatterns (rest : List TP.Pat) :
     · rw [ht'.1]; simp only [List.length_cons]; omega
     · have h2 := ht'.2
       simp only [List.foldl_cons]
-      refine ⟨h2.running, h2.stack, h2.loops, h2.eval, h2.unnamed, h2.locals, h2.status, h2.globals,
+      refine ⟨h2.running, h2.stack, h2.loops, h2.eval, h2.evok, h2.unnamed, h2.locals, h2.status, h2.umode, h2.globals,
         h2.constants, h2.lights, h2.trace, h2.defaultColor, h2.matrix, h2.draws, fun r hr => ?_⟩
       rw [← h2.regs r hr]
       simp only [S.setReg, State.setReg]
